@@ -426,10 +426,13 @@ Definition canonicalize_inputs (inputs : list (list nat)) (output : option (list
 (* inputs_output_to_eq(inputs, output, canonicalize=False) *)
 Definition inputs_output_to_eq (inputs : list str) (output : str) : str :=
   join [c_comma] inputs ++ [c_dash; c_gt] ++ output.
-(* ... canonicalize=True: a fresh ind_map over inputs then output *)
+(* ... canonicalize=True: a fresh ind_map; `inputs` is rebound to a LAZY generator while
+   `output = tuple(map(ind_map.__getitem__, output))` is evaluated at once, so the OUTPUT's
+   labels receive their symbols first and the inputs' labels after it (when the f-string
+   consumes the generator) *)
 Definition inputs_output_to_eq_canon (inputs : list (list nat)) (output : list nat) : str :=
-  let '(m1, ins) := im_terms [] inputs in
-  let '(_, out) := im_term m1 output in
+  let '(m1, out) := im_term [] output in
+  let '(_, ins) := im_terms m1 inputs in
   inputs_output_to_eq ins out.
 
 (* ================================================================== *)
@@ -488,6 +491,17 @@ Definition build_expression_path (inputs : list (list nat)) (output : list nat) 
          else PEinsum (inputs_output_to_eq inputs output)
   | _ => PTree
   end.
+
+Definition path1_eqb (a b : path1) : bool :=
+  match a, b with
+  | PIdentity, PIdentity => true
+  | PTranspose p, PTranspose q => list_eqb Nat.eqb p q
+  | PEinsum e, PEinsum f => list_eqb Nat.eqb e f
+  | PRaise, PRaise => true
+  | PTree, PTree => true
+  | _, _ => false
+  end.
+#[export] Instance Eqb_path1 : Eqb path1 := path1_eqb.
 
 (* ncon(arrays, indices): labels are Python ints (Z); output = sorted(set of negatives, reverse=True) *)
 Definition zmemb (x : Z) (l : list Z) : bool := existsb (Z.eqb x) l.
